@@ -277,7 +277,15 @@ static void on_asan_death(void) {
 /* called by the sanitizer runtime when it has detected an error, before it prints the report: from
    here on the interposers must not schedule any more (the report machinery itself reads and writes) */
 void __asan_on_error(void) { sched_on = 0; }
-static void on_alarm(int sig) { (void)sig; finish_fail("hang", "real-time-watchdog"); }
+/* real-time watchdog: NOT a verdict (a loaded machine can trip it); the driver repeats such a run alone
+   with a longer limit (environment C13_ALARM_S) before anything is reported */
+static void on_alarm(int sig) {
+  static const char m[] = "res realtime-watchdog\n";
+  (void)sig; sched_on = 0;
+  fflush(stdout);
+  if (r_write) r_write(1, m, sizeof m - 1);
+  _exit(124);
+}
 
 /* ------------------------------------------------------------------------------------------ */
 static int enabled(sthread *t) {
@@ -669,12 +677,28 @@ static int is_notify_pipe(int fd) {
   for (i = nclients - 1; i >= 0; i--) if (clients[i].live && clients[i].pipe_w == fd) return i;
   return -1;
 }
-static int foreign_reported;
+static int foreign_reported, stale_reported;
 ssize_t write(int fd, const void *b, size_t n) {
   ssize_t rc; int c;
   if (!MANAGED()) { resolve(); return r_write(fd, b, n); }
   sched_point("write");
   if (self->role != 'P' && (c = is_notify_pipe(fd)) >= 0) ev(E_PIPEW, NULL, c, NULL);
+  /* a write performed under outputMutex of client c (rfbWriteExact) must go to the socket client c has
+     NOW: the descriptor number rfbWriteExact read before it took the mutex may have been closed by the
+     client's input thread in the meantime (and handed out again: another client's socket, a notify pipe) */
+  if (self->role != 'P' && !stale_reported) {
+    int i;
+    for (i = 0; i < nobj; i++) if (objs[i].kind == 0 && objs[i].live && objs[i].owner == self && objs[i].cls == 'O') {
+      int want = objs[i].cid, is = is_client_sock(fd), pc = is_notify_pipe(fd);
+      if (is != want) {
+        stale_reported = 1; dump_trace();
+        if (pc >= 0) printf("res misuse write-on-stale-descriptor holds=O%d fd=%d is-now=notify-pipe-of-client-%d\n", want, fd, pc);
+        else if (is >= 0) printf("res misuse write-on-stale-descriptor holds=O%d fd=%d is-now=socket-of-client-%d\n", want, fd, is);
+        else printf("res misuse write-on-stale-descriptor holds=O%d fd=%d is-now=closed-or-foreign\n", want, fd);
+      }
+      break;
+    }
+  }
   /* no byte of one client's stream may go to another client: a client thread writes to its own socket only */
   if ((self->role == 'I' || self->role == 'O') && (c = is_client_sock(fd)) >= 0 && c != self->cid && !foreign_reported++) {
     dump_trace(); printf("res misuse write-to-foreign-client-socket thread-of-client=%d socket-of-client=%d fd=%d\n", self->cid, c, fd);
@@ -1068,7 +1092,7 @@ int main(void) {
   resolve();
   signal(SIGPIPE, SIG_IGN);
   signal(SIGALRM, on_alarm);
-  alarm(100);
+  { const char *a = getenv("C13_ALARM_S"); alarm(a && atoi(a) > 0 ? (unsigned)atoi(a) : 100); }
   __sanitizer_set_death_callback(on_asan_death);
   setvbuf(stdout, NULL, _IOFBF, 1 << 20);
   while ((line = vh_readline())) {
